@@ -56,6 +56,14 @@ func (core *JApiCore) drainCurrentScanner() *jerr.JApiError {
 
 // simply decides which function to call based on lexeme type
 func (core *JApiCore) next(lexeme scanner.Lexeme) *jerr.JApiError {
+	if core.currentDirective == nil &&
+		lexeme.Type() != scanner.Keyword && lexeme.Type() != scanner.ContextExplicitClosing {
+		// A parameter, an annotation, a body or an opening parenthesis which does
+		// not follow a directive: e.g. "INCLUDE file extra", "INCLUDE file // note"
+		// or a file which starts with "(".
+		return core.japiError(jerr.NoDirectiveForElement, lexeme.Begin())
+	}
+
 	switch lexeme.Type() {
 	case scanner.Keyword:
 		return core.processKeyword(lexeme)
